@@ -14,6 +14,7 @@ import sys
 import time
 
 VERIF = os.path.dirname(os.path.dirname(os.path.abspath(__file__)))
+REPO = os.environ.get("REPO", "/repo")  # a scratch worktree of /repo when several changes are tried side by side
 
 
 def main():
@@ -39,12 +40,12 @@ def main():
             a = a[2:]
         else:
             a = a[1:]
-    st = subprocess.run(["git", "-C", "/repo", "status", "--porcelain"], stdout=subprocess.PIPE, text=True).stdout.strip()
+    st = subprocess.run(["git", "-C", REPO, "status", "--porcelain", "--untracked-files=no"], stdout=subprocess.PIPE, text=True).stdout.strip()
     if st:
-        print("refusing: /repo has uncommitted changes:\n" + st)
+        print("refusing: " + REPO + " has uncommitted changes:\n" + st)
         return 2
     patch = os.path.join(d, "patch.diff")
-    r = subprocess.run(["git", "-C", "/repo", "apply", patch], stdout=subprocess.PIPE, stderr=subprocess.STDOUT, text=True)
+    r = subprocess.run(["git", "-C", REPO, "apply", patch], stdout=subprocess.PIPE, stderr=subprocess.STDOUT, text=True)
     if r.returncode != 0:
         print("patch does not apply:\n" + r.stdout)
         return 2
@@ -72,7 +73,7 @@ def main():
             if c.returncode not in (0, 1):
                 print(c.stdout[-3000:])
     finally:
-        subprocess.run(["git", "-C", "/repo", "checkout", "--", "."], check=False)
+        subprocess.run(["git", "-C", REPO, "checkout", "--", "."], check=False)
         if os.path.isdir(saved):
             shutil.rmtree(os.path.join(VERIF, "evidence"), ignore_errors=True)
             shutil.copytree(saved, os.path.join(VERIF, "evidence"))
